@@ -7,7 +7,7 @@ from .. import cases, common, env, runner, strategies as S, sut
 from ..runner import Failure, Leg, Result
 
 PROP = "C19"
-PRES = ["list", "array", "dict-str", "dict-int", "names", "names-array"]
+PRES = ["list", "array", "dict-str", "dict-int", "names", "names-array", "dict-mixed"]
 OUTS = sorted(sut.OUTPUT_TYPES)
 
 
